@@ -51,6 +51,16 @@ Definition lock_pins (lock : list (string * string)) : bool :=
    then matter are the harness's, which is what the differential run links *)
 (* only the requirement lines of the MODELLED crates are pinned: a further dependency (or a change to one the model does not
    represent, such as the logging front end) is none of the model's business *)
+(* the feature table of Cargo.toml: the five behaviour-relevant features are independent switches (none implies another, none is
+   on by default) except that `arbitrary` implies `std`; a feature set f of the model means exactly the cfgs named in f *)
+Definition spec_cargo_features : list (string * string) := [
+  ("std", "[]"); ("arbitrary", "[""dep:arbitrary"", ""std""]"); ("get-info-full", "[]"); ("large-blobs", "[]");
+  ("third-party-payment", "[]")].
+
+Definition features_hold (feats : list (string * string)) : bool :=
+  forallb (fun p => existsb (fun q => String.eqb (fst p) (fst q) && String.eqb (snd p) (snd q)) feats) spec_cargo_features
+  && negb (existsb (fun q => String.eqb (fst q) "default") feats).
+
 Definition deps_hold (repo_has_lock : bool) (lock hlock deps : list (string * string)) : bool :=
   lock_pins hlock
   && (if repo_has_lock then lock_pins lock else true)
